@@ -1,5 +1,7 @@
 import GormModel.Drv.Util
 import GormModel.Model.Bind
+import GormModel.Model.BindSpec
+import GormModel.Model.BindJoin
 open Lean
 open Gorm.Bind
 namespace Gorm.Drv
@@ -105,19 +107,29 @@ def stJ (d : Dialect) (st : St String) : Json :=
   Json.mkObj [("sql", cs (concretize d st.segs)), ("vars", Json.arr (st.vars.map valJ).toArray),
     ("phs", natListJ (phs st.segs)), ("oof", Json.bool st.oof), ("unsupported", Json.bool st.unsupported)]
 
+/-- rendering of `v` plus the SPECIFICATION side (`Model/BindSpec.lean`): `wf` = `(spec d v).ok`, `flat` = `(spec d v).xs` -/
+def renderJ (d : Dialect) (v : Val String) : Json :=
+  let st := render d v
+  let sp := spec d v
+  Json.mkObj [("sql", cs (concretize d st.segs)), ("vars", Json.arr (st.vars.map valJ).toArray),
+    ("phs", natListJ (phs st.segs)), ("oof", Json.bool st.oof), ("unsupported", Json.bool st.unsupported),
+    ("wf", Json.bool sp.ok), ("flat", Json.arr (sp.xs.map valJ).toArray)]
+
 end HC01
 
 open HC01 in
 /-- line-protocol handler for C01 (ops are JSON arrays `[opname, args…]`); returns `none` for ops it does not own
-    ["bind.render", dialect, val]                      → {sql, vars, phs, oof, unsupported}   (`stmt.AddVar(stmt, v)` on a fresh statement)
+    ["bind.render", dialect, val]                      → {sql, vars, phs, oof, unsupported, wf, flat}   (`stmt.AddVar(stmt, v)` on a fresh statement; wf/flat = `Gorm.Bind.spec`)
     ["bind.cond", dialect, isNum, query, [args]]       → "fallthrough" | {…}                  (BuildCondition string dispatch, then Build of each result)
+    ["bind.join", dialect, pre, [refs], [on], [outer]]  → {…} of `render d (joinStmt d pre refs on outer)`   (relation join: private ON statement re-templated and re-bound)
+    ["bind.dispatch", dialect, kind, sql, [args]]      → "fallthrough" | {…}   kind = raw | exec | rawjoin | select  (Expr vs NamedExpr decision of the entry point)
     ["bind.wf", val]                                   → bool (decidable well-formedness, Model side) -/
 def handleC01 (op : String) (args : Array Json) : Option Json := do
   match op with
   | "bind.render" =>
     let d ← parseDialect (arg args 1)
     let v ← parseVal (arg args 2)
-    some (stJ d (render d v))
+    some (renderJ d v)
   | "bind.cond" =>
     let d ← parseDialect (arg args 1)
     let isNum ← jBool? (arg args 2)
@@ -125,7 +137,26 @@ def handleC01 (op : String) (args : Array Json) : Option Json := do
     let as ← (← jArr? (arg args 4)).toList.mapM parseVal
     match buildCondStr isNum q as with
     | none => some (Json.str "fallthrough")
-    | some es => some (stJ d (render d (.whereC es)))
+    | some es => some (renderJ d (.whereC es))
+  | "bind.join" =>
+    let d ← parseDialect (arg args 1)
+    let pre ← parseVal (arg args 2)
+    let lst (k : Nat) : Option (List (Val String)) := do (← jArr? (arg args k)).toList.mapM parseVal
+    some (renderJ d (joinStmt d pre (← lst 3) (← lst 4) (← lst 5)))
+  | "bind.dispatch" =>
+    let d ← parseDialect (arg args 1)
+    let kind ← jStr? (arg args 2)
+    let q ← chars? (arg args 3)
+    let as ← (← jArr? (arg args 4)).toList.mapM parseVal
+    match kind with
+    | "raw" => some (renderJ d (rawDispatch q as))
+    | "exec" => some (renderJ d (rawDispatch q as))
+    | "rawjoin" => some (renderJ d (rawJoinDispatch q as))
+    | "select" =>
+      match selectDispatch q as with
+      | some v => some (renderJ d v)
+      | none => some (Json.str "fallthrough")
+    | _ => none
   | _ => none
 
 end Gorm.Drv
